@@ -30,7 +30,7 @@ dy = c15.dy
 # optimisation: generator
 
 
-T6_PENDING = True
+T6_PENDING = False  # F44 (history rows read the last member's constant inputs) is repaired
 
 
 def gen_hist(rng, t0, kind):
@@ -622,6 +622,20 @@ def run_sim(c, count):
 # ---------------------------------------------------------------------------------------------
 
 
+def corpus():
+    """former failing inputs (fixed findings), run first as ordinary cases"""
+    # F44: y = delay(c, 1) with E = 2 and constant inputs that differ between the members before t0
+    f44 = dict(times=[0.0, 1.0, 2.0], E=2, states=["x0"], algs=["yd0"], controls=[{"name": "u0", "times": [0.0, 1.0, 2.0]}],
+               cins=[{"name": "c0", "times": [-1.0, 0.0, 1.0, 2.0], "kind": "wide",
+                      "values": [[100.0, 1.0, 2.0, 3.0], [200.0, 1.5, 2.0, 3.0]]}],
+               params=[{"name": "p0", "values": [0.0, 0.0]}, {"name": "ptau", "values": [1.0, 1.0]}], aliases=[],
+               nominal={"x0": 1.0, "yd0": 1.0, "u0": 1.0}, modes={"x0": 0, "yd0": 0, "u0": 0, "c0": 0},
+               history=[{"x0": {"times": [-1.0, 0.0], "values": [0.5, 0.25]}}, {"x0": {"times": [-1.0, 0.0], "values": [1.0, 2.0]}}],
+               path_vars=[], dyn={"a": 0.5}, hkind="full",
+               delays=[{"expr": {"const": 0.0, "terms": {"c0": 1.0}}, "out": "yd0", "tau": 1.0, "tau_kind": "step"}])
+    return [f44]
+
+
 def run(c):
     warnings.filterwarnings("ignore")
     logging.getLogger("rtctools").setLevel(logging.CRITICAL)
@@ -646,6 +660,9 @@ def run(c):
     c.prove()
     rng = c.rng
     n = c.n(40, 500)
+    batch = [opt_instance(c, spec, rng) for spec in corpus()]
+    run_opt_batch(c, batch)
+    c.hit("opt:corpus", len(batch))
     batch = []
     for i in range(n):
         spec = gen_spec(rng)
